@@ -290,7 +290,8 @@ def run_case(acc, name, y, cand, annot, bs, nps, a_perf, bound):
              "row_without_pair": bool(len(avail_per_row) < (n_rows if (cand is None or isinstance(cand, tuple)) else len(cand))),
              "bs_gt_rows": bool(bs > (len(cand) if isinstance(cand, list) else n_rows)),
              # a sample of X that some annotator has labeled already (so the aggregated label vector marks it as labeled)
-             "candidate_sample_has_label": bool((not isinstance(cand, tuple)) and any(np.any(~np.isnan(y[r])) for r in avail_per_row if r < len(y)))}
+             "candidate_sample_has_label": bool((not isinstance(cand, tuple)) and any(
+                 np.any(~np.isnan(y[r])) for r in (list(cand) if isinstance(cand, list) else range(len(y)))))}
 
     def run(tp):
         return run_query(qs, extra, X, y, cand_arg, annot, bs, None if is_iet else nps, a_perf, tp, inner=inner)
